@@ -462,3 +462,49 @@ def dict_mutation_keeps_valid(op_i: int, ksel: int, sel: int, v: int) -> bool:
         hold("inv", item is None or (type(item) is int and item >= 0),
              lambda: "typed dict holds an invalid value after %s: %r" % (op, dict(cur)))
     return True
+
+
+@obligation(prop="C01", sites=("inv",), encodes=ENC, budget={"quick": 200, "thorough": 400},
+            what="two fields of one class with different options in one configuration: a value accepted by the "
+                 "permissive one is then offered to the strict one (and the other way round): afterwards each held "
+                 "value satisfies ITS OWN field's constraints (IPv4Network prefix bounds symbolic, Int bounds "
+                 "symbolic, String max length)")
+def sibling_fields_of_one_class(which: int, p: int, lo: Optional[int], hi: Optional[int], strict_first: bool) -> bool:
+    """
+    pre: 0 <= which <= 2 and 0 <= p <= 32
+    pre: (lo is None or 0 <= lo <= 32) and (hi is None or 0 <= hi <= 32)
+    post: _
+    """
+    from cincoconfig import IPv4NetworkField
+    schema = Schema()
+    if which == 0:
+        ptxt = None
+        for cand in range(0, 33):
+            if p == cand:
+                ptxt = str(cand)
+        value = "0.0.0.0/" + ptxt
+        schema.loose = IPv4NetworkField()
+        schema.strict = IPv4NetworkField(min_prefix_len=lo, max_prefix_len=hi)
+        ok = (lo is None or p >= lo) and (hi is None or p <= hi)
+    elif which == 1:
+        value = p
+        schema.loose = IntField()
+        schema.strict = IntField(min=lo, max=hi)
+        ok = (lo is None or p >= lo) and (hi is None or p <= hi)
+    else:
+        value = "x" * (p % 5)
+        schema.loose = StringField()
+        schema.strict = StringField(max_len=hi)
+        ok = hi is None or (p % 5) <= hi
+        if lo is not None:
+            skip("unused")
+    cfg = schema()
+    for key in (("strict", "loose", "strict") if strict_first else ("loose", "strict")):
+        try:
+            cfg[key] = value
+        except ValueError:
+            pass
+    hold("inv", cfg.loose == value, "permissive field did not take the value")
+    hold("inv", (cfg.strict == value) if ok else (cfg.strict is None),
+         lambda: "strict field holds %r although its own options %s it" % (cfg.strict, "allow" if ok else "exclude"))
+    return True
